@@ -43,6 +43,7 @@ type TypeMux struct {
 	mutex   sync.RWMutex
 	subm    map[reflect.Type][]*TypeMuxSubscription
 	stopped bool
+	sim     simHook // simulator seam, empty unless built with the verif tag
 }
 
 func NewMux() *TypeMux {
@@ -85,6 +86,9 @@ func (mux *TypeMux) Subscribe(types ...interface{}) *TypeMuxSubscription {
 }
 
 func (mux *TypeMux) AsyncPost(ev interface{}) {
+	if mux.simPost(ev) {
+		return
+	}
 	go func() {
 		err := mux.Post(ev)
 		if err != nil {
@@ -96,6 +100,9 @@ func (mux *TypeMux) AsyncPost(ev interface{}) {
 // Post sends an event to all receivers registered for the given type.
 // It returns ErrMuxClosed if the mux has been stopped.
 func (mux *TypeMux) Post(ev interface{}) error {
+	if mux.simPost(ev) {
+		return nil
+	}
 	event := &TypeMuxEvent{
 		Time: time.Now(),
 		Data: ev,
